@@ -23,28 +23,38 @@ def verify(pid, name=None):
     demo_path = os.path.join(wt, 'tests', demo + '.rs')
     if not os.path.exists(demo_path):
         shutil.copy(os.path.join(wt, 'out', 'demo.rs'), demo_path)
-    release = '--release' if '--release' in open(os.path.join(wt, 'out', 'README.md')).read() else ''
+    readme = open(os.path.join(wt, 'out', 'README.md')).read()
+    release = '--release' if ('--release --test' in readme or '--release --features' in readme) else ''
+    if '--features benchmarking' in readme or 'feature = "benchmarking"' in open(demo_path).read():
+        release += ' --features benchmarking'
+    skip_suite = os.environ.get('SEED_SKIP_SUITE') == '1'
     # state: patch applied?
     rc, o = sh('git diff --stat -- src', cwd=wt)
     if not o.strip():
         rc, o = sh('git apply out/patch.diff', cwd=wt)
         assert rc == 0, o
     # 1. suite with patch (demo moved aside)
-    os.rename(demo_path, '/tmp/%s.rs.aside' % demo)
-    rc, o = sh('cargo test --offline 2>&1 | grep -E "^test result|FAILED|failed" | head -20', cwd=wt)
-    log.append('suite with patch:\n' + o)
-    suite_ok = 'test result: ok. 60 passed' in o and 'FAILED' not in o
-    os.rename('/tmp/%s.rs.aside' % demo, demo_path)
+    if skip_suite and os.path.exists(os.path.join(out, 'meta.json')):
+        suite_ok = json.load(open(os.path.join(out, 'meta.json')))['suite_passes_with_patch']
+        log.append('suite with patch: (result kept from the previous verification)')
+    else:
+        os.rename(demo_path, '/tmp/%s.rs.aside' % demo)
+        rc, o = sh('cargo test --offline 2>&1 | grep -E "^test result|FAILED|failed" | head -20', cwd=wt)
+        log.append('suite with patch:\n' + o)
+        suite_ok = 'test result: ok. 60 passed' in o and 'FAILED' not in o
+        os.rename('/tmp/%s.rs.aside' % demo, demo_path)
     # 2. demo with patch
     rc, o = sh('cargo test --offline %s --test %s 2>&1 | grep -E "^test result|panicked|FAILED" | head -10' % (release, demo), cwd=wt)
     log.append('demo with patch:\n' + o)
-    demo_fails = 'FAILED' in o or 'failed' in o
+    demo_fails = 'test result: FAILED' in o
     # 3. demo without patch
     rc, o2 = sh('git apply -R out/patch.diff', cwd=wt)
     assert rc == 0, o2
     rc, o = sh('cargo test --offline %s --test %s 2>&1 | grep -E "^test result|panicked|FAILED" | head -10' % (release, demo), cwd=wt)
     log.append('demo without patch:\n' + o)
-    demo_passes = 'test result: ok' in o and 'FAILED' not in o
+    import re
+    mm = re.search(r'test result: ok\. (\d+) passed', o)
+    demo_passes = bool(mm) and int(mm.group(1)) >= 1 and 'FAILED' not in o
     sh('git apply out/patch.diff', cwd=wt)
     for f in ('patch.diff', 'demo.rs', 'README.md'):
         shutil.copy(os.path.join(wt, 'out', f), os.path.join(out, f))
